@@ -258,27 +258,46 @@ func doObjdump(binary, hash string) (string, error) {
 		}
 	}
 
-	f, err = os.Create(dumpFile)
+	// Write to a temporary file and rename it when it is complete, so that an
+	// interrupted or failed run never leaves a partial dump under the cache name.
+	f, err = os.CreateTemp(filepath.Dir(dumpFile), filepath.Base(dumpFile)+".tmp")
 	if err != nil {
 		return "", err
 	}
-	defer f.Close()
-
-	out := bufio.NewWriter(f)
-	defer out.Flush()
-
-	if _, err = out.WriteString(hash + "\n"); err != nil {
+	if err = writeObjdump(f, binary, hash); err != nil {
+		os.Remove(f.Name())
 		return "", err
 	}
-
-	cmd := exec.Command("go", "tool", "objdump", binary)
-	cmd.Stdout = out
-	if err = cmd.Run(); err != nil {
+	if err = os.Rename(f.Name(), dumpFile); err != nil {
+		os.Remove(f.Name())
 		return "", err
 	}
 
 	log.Println("objdump written to", dumpFile)
 	return dumpFile, nil
+}
+
+// writeObjdump writes the hash followed by the disassembly of the binary to f
+// and closes it.
+func writeObjdump(f *os.File, binary, hash string) error {
+	out := bufio.NewWriter(f)
+	if _, err := out.WriteString(hash + "\n"); err != nil {
+		f.Close()
+		return err
+	}
+
+	cmd := exec.Command("go", "tool", "objdump", binary)
+	cmd.Stdout = out
+	if err := cmd.Run(); err != nil {
+		f.Close()
+		return err
+	}
+
+	if err := out.Flush(); err != nil {
+		f.Close()
+		return err
+	}
+	return f.Close()
 }
 
 func filterBlacklist(syscalls []string) ([]string, []string) {
